@@ -51,7 +51,20 @@ func mkBool(b bool) *Term {
 	}
 	return tFalse
 }
-func mkInt(i int64) *Term      { return &Term{op: "const", sort: SInt, iv: big.NewInt(i), size: 1} }
+var smallInts = func() []*Term {
+	out := make([]*Term, 1056)
+	for i := range out {
+		out[i] = &Term{op: "const", sort: SInt, iv: big.NewInt(int64(i) - 32), size: 1}
+	}
+	return out
+}()
+
+func mkInt(i int64) *Term {
+	if i >= -32 && i < 1024 {
+		return smallInts[i+32]
+	}
+	return &Term{op: "const", sort: SInt, iv: big.NewInt(i), size: 1}
+}
 func mkBig(i *big.Int) *Term   { return &Term{op: "const", sort: SInt, iv: new(big.Int).Set(i), size: 1} }
 func mkStr(s string) *Term     { return &Term{op: "const", sort: SStr, sv: s, size: 1} }
 func mkVar(n string, s Sort) *Term { return &Term{op: "var", sort: s, sv: n, size: 1} }
